@@ -422,6 +422,14 @@ def parse_rvalue(s):
         ups = ()
         if rest.startswith("("):
             ups = tuple(parse_operand(x) for x in split_top(rest[1:-1]) if x)
+        elif rest.startswith("{"):
+            flds = []
+            for part in split_top(rest[1:-1].strip()):
+                if not part:
+                    continue
+                k = part.index(": ")
+                flds.append(parse_operand(part[k + 2:]))
+            ups = tuple(flds)
         return ("closure", s[:e + 1], ups)
     # ADT aggregates:  Path { f: op, .. } | Path::Variant(op, ..) | Path(op) | Path::Variant | Path
     m = re.match(r"^(.*?) \{ (.*) \}$", s)
